@@ -39,9 +39,7 @@ def _root(e):
 
 
 def r1_ownership(repo, rep, cls):
-  fit = cls.methods.get('fit')
-  if fit is None:
-    raise Undecided('TBRDiagnostics.fit vanished')
+  fit = inlined_fit(repo, cls)
   frame = fit.params[1]
   rep.fn(fit)
   # uses of the caller's frame in fit
@@ -114,7 +112,7 @@ def r1_ownership(repo, rep, cls):
 
 
 def r2_r3_fit(repo, rep, cls):
-  fit = cls.methods['fit']
+  fit = inlined_fit(repo, cls)
   g = cfgmod.CFG(fit.node)
   rd = dataflow.Reaching(g)
   # report/removal pairs
@@ -211,6 +209,14 @@ def r4_r5_aggregation(repo, rep, cls):
     if m.kind == 'stmt' and isinstance(m.ast, ast.Assign):
       t = m.ast.targets[0]
       tgt = norm(t)
+      if isinstance(t, ast.Subscript):
+        # the column may be named through a local: data[group_col] with group_col = self._df_names.group
+        sl = t.slice
+        if isinstance(sl, ast.Tuple):
+          sl_txt = ', '.join(norm(rd.expand(m, x)[0]) for x in sl.elts)
+        else:
+          sl_txt = norm(rd.expand(m, sl)[0])
+        tgt = '%s[%s]' % (norm(t.value), sl_txt)
       if re.fullmatch(r'\w+\[self\._df_names\.group\]', tgt) or re.fullmatch(r'\w+\.loc\[:, self\._df_names\.group\]', tgt):
         relabel = (m, t)
   if relabel is None:
@@ -279,6 +285,17 @@ def r6_pairing(repo, rep, cls):
                   'the i-th geo label is taken from `%s` while the i-th time series is row i of `%s`: the two orders differ when input rows are not sorted by geo, so the wrong geo is reported and removed'
                   % (le, norm(rbase)), f.loc(ln.ast))
   rep.floor('positional label/row pairings', n_pairs, 1)
+
+
+KEEP_AS_CALLS = {'_create_analysis_data', '_detect_noisy_geos', '_detect_outliers', '_correlation_test', '_correlation_bound', '_min_correlation_threshold'}
+
+
+def inlined_fit(repo, cls):
+  from mmsa import inline
+  fit = cls.methods.get('fit')
+  if fit is None:
+    raise Undecided('TBRDiagnostics.fit vanished')
+  return inline.inline_function(repo, fit, lambda h: h.name.startswith('_') and h.name not in KEEP_AS_CALLS)
 
 
 def run(repo, rep, tier):
